@@ -68,14 +68,22 @@ def main() -> int:
         disagreements = mod.correspond(ctx, cov)
     except C.DriverBroken as e:
         broken.append("correspondence: model driver does not build/run: " + str(e)[-300:])
+    except Exception as e:
+        broken.append("correspondence: " + _impl_raised(e))
     for d in disagreements[:5]:
         broken.append(f"correspondence: {d.where}: model={json.dumps(d.model, default=str)[:200]} "
                       f"impl={json.dumps(d.impl, default=str)[:200]}")
-    failing += mod.oracle(ctx, cov)
+    try:
+        failing += mod.oracle(ctx, cov)
+    except Exception as e:
+        broken.append("oracle: " + _impl_raised(e))
 
     # 5. if anything broke and no failing input is known yet: directed + extended search on the implementation
     if broken and not _unlisted(prop, failing) and hasattr(mod, "search"):
-        failing += mod.search(ctx, disagreements, broken)
+        try:
+            failing += mod.search(ctx, disagreements, broken)
+        except Exception as e:
+            broken.append("search: " + _impl_raised(e))
 
     # 6. known findings
     known = [k for k in C.load_known(prop) if k.get("status", "open") == "open"]
@@ -132,6 +140,22 @@ def main() -> int:
           f"{cov.evaluations} ({len(cov.nontrivial)} distinct non-trivial), disagreements {len(disagreements)}, "
           f"violations {violations}, {time.time() - ctx.t0:.1f}s")
     return 1 if violations else 0
+
+
+def _impl_raised(e: BaseException) -> str:
+    """A harness step died of an exception.  If it was raised INSIDE the implementation under check (a frame of the
+    traceback lies in $VERIF_REPO), the implementation no longer behaves as the harness — written against the model — expects:
+    the tie is broken, which is reported like any other obligation that no longer checks.  Anything else is a defect of
+    the machinery and stays an infrastructure error (exit 2)."""
+    import traceback
+    frames = traceback.extract_tb(e.__traceback__)
+    repo = os.path.realpath(C.REPO)
+    inside = [f for f in frames if os.path.realpath(f.filename).startswith(repo + os.sep)]
+    if not inside:
+        raise e
+    f = inside[-1]
+    return (f"the harness could not drive the implementation as the model prescribes: {type(e).__name__}: {str(e)[:160]} "
+            f"raised at {os.path.relpath(f.filename, repo)}:{f.lineno} ({f.name})")
 
 
 def _unlisted(prop, failing):
